@@ -82,43 +82,48 @@ Proof.
 Qed.
 
 (** ** bitset(string, pos, n, zero, one) *)
+Lemma forallb_seq_sub (f : N -> bool) str pos len : pos + len <= length str ->
+  forallb (fun i => f (nth (pos + i) str 0%N)) (seq 0 len) = forallb f (firstn len (skipn pos str)).
+Proof.
+  intros Hlen. apply bool_eq_iff.
+  assert (Hsub : length (firstn len (skipn pos str)) = len) by (rewrite firstn_length, skipn_length; lia).
+  rewrite (forallb_nth f _ 0%N), forallb_forall, Hsub. split.
+  - intros H j Hj. rewrite nth_firstn_lt, nth_skipn_add by exact Hj. apply H. apply in_seq. lia.
+  - intros H i Hi. apply in_seq in Hi. specialize (H i ltac:(lia)).
+    now rewrite nth_firstn_lt, nth_skipn_add in H by lia.
+Qed.
+
+(* for every string, pos, n, zero, one: the precondition fires exactly when std::bitset throws
+   (out_of_range or invalid_argument), and otherwise the result stands for the standard's value *)
 Theorem of_string_spec str pos n zero one :
   match of_string bits w mx m64 str pos n zero one with
-  | Ok ws =>
-      length str >= pos /\ wf ws
-      /\ (str_valid str pos n zero one = true -> s_of_string bits str pos n zero one = SOk (abs ws))
+  | Ok ws => wf ws /\ s_of_string bits str pos n zero one = SOk (abs ws)
   | Contract => s_of_string bits str pos n zero one = SOutOfRange
+                \/ s_of_string bits str pos n zero one = SInvalid
   | _ => False
   end.
 Proof.
-  unfold of_string, s_of_string, str_valid.
-  destruct (Nat.ltb_spec (length str) pos) as [Hlt|Hge]; [reflexivity|].
+  unfold of_string, s_of_string.
+  destruct (Nat.ltb_spec (length str) pos) as [Hlt|Hge]; [now left|].
   fold (s_rlen str pos n).
   set (rlen := s_rlen str pos n).
   assert (Hrlen : rlen <= length str - pos) by (unfold rlen, s_rlen; lia).
   set (sub := firstn rlen (skipn pos str)).
   assert (Hsub : length sub = rlen) by (unfold sub; rewrite firstn_length, skipn_length; lia).
+  rewrite (forallb_seq_sub (fun ch => N.eqb ch zero || N.eqb ch one) str pos rlen) by lia.
+  fold sub.
+  destruct (forallb (fun c => N.eqb c zero || N.eqb c one) sub) eqn:Hvalid; cbn [negb]; [|now right].
   set (m := Nat.min rlen bits).
   set (body := fun ws i =>
                  let ch := nth (pos + m - 1 - i) str 0%N in
                  let ws1 := if N.eqb ch one then set_raw w mx ws i true else ws in
                  if N.eqb ch zero then set_raw w mx ws1 i false else ws1).
-  (* whatever the characters are, the loop keeps the invariant *)
-  assert (Hwf_any : forall l ws, (forall i, In i l -> i < bits) -> wf ws -> wf (fold_left body l ws)).
-  { induction l as [|i l IH]; intros ws Hl Hws; [exact Hws|]. cbn [fold_left].
-    apply IH; [intros j Hj; apply Hl; now right|].
-    assert (Hi : i < bits) by (apply Hl; now left).
-    unfold body. cbv zeta. destruct (N.eqb _ one); destruct (N.eqb _ zero);
-      repeat (apply wf_set_raw; try exact Hbits; try exact Hi); exact Hws. }
   destruct (of_ullong_bits 0) as (Hwf0 & Hg0).
-  split; [lia|]. split.
-  { apply Hwf_any; [|exact Hwf0]. intros i Hi. apply in_seq in Hi. unfold m in Hi. lia. }
-  intros Hvalid. rewrite Hvalid.
   assert (Hch : forall i, i < m ->
             let ch := nth (pos + m - 1 - i) str 0%N in (N.eqb ch zero || N.eqb ch one) = true).
   { intros i Hi. cbv zeta.
     rewrite (forallb_nth _ _ 0%N) in Hvalid. specialize (Hvalid (m - 1 - i)).
-    fold sub in Hvalid. rewrite Hsub in Hvalid. unfold sub in Hvalid.
+    rewrite Hsub in Hvalid. unfold sub in Hvalid.
     rewrite nth_firstn_lt, nth_skipn_add in Hvalid by (unfold m in *; lia).
     replace (pos + (m - 1 - i)) with (pos + m - 1 - i) in Hvalid by lia.
     apply Hvalid. unfold m in *. lia. }
@@ -141,12 +146,12 @@ Proof.
       split; [now apply wf_set_raw|].
       intros j. destruct Hws as (Hl & _). rewrite (getbit_set_raw bits k Hbits ws Hl i Hib). reflexivity.
   - exact Hwf0.
-  - f_equal.
+  - fold body. split; [exact Hwf|]. f_equal.
     assert (Hm : Nat.min bits (length sub) = m) by (rewrite Hsub; unfold m; lia).
     rewrite Hm.
     apply abs_char.
     + rewrite app_length, rev_length, map_length, firstn_length, repeat_length, Hsub. unfold m. lia.
-    + intros i Hi. fold body. rewrite Hg, Hg0.
+    + intros i Hi. rewrite Hg, Hg0.
       destruct (Nat.ltb_spec i m) as [Him|Him].
       * rewrite app_nth1 by (rewrite rev_length, map_length, firstn_length, Hsub; unfold m in *; lia).
         rewrite rev_nth by (rewrite map_length, firstn_length, Hsub; unfold m in *; lia).
